@@ -21,7 +21,7 @@ pub mod c19;
 
 use crate::engine::Cfg;
 
-pub const SCENARIOS: &[&str] = &["c01", "c02a", "c02b", "c03", "c04a", "c04b", "c04c", "c05", "c06mpsc", "c06spsc", "c06mpmc", "c08", "c09", "c10s", "c10f", "c11c", "c11b", "c11w", "c12", "c13", "c14s", "c14sel", "c15", "c16q", "c16sel", "c17s", "c17d", "c18t", "c18c", "c19v1", "c19plain"];
+pub const SCENARIOS: &[&str] = &["c01", "c02a", "c02b", "c03", "c04a", "c04b", "c04c", "c04d", "c05", "c06mpsc", "c06spsc", "c06mpmc", "c08", "c09", "c10s", "c10f", "c11c", "c11b", "c11w", "c12", "c13", "c14s", "c14sel", "c15", "c16q", "c16sel", "c17s", "c17d", "c18t", "c18c", "c19v1", "c19plain"];
 
 pub fn run(name: &str, seed: u64, ov: impl FnMut(&mut Cfg)) -> ! {
     match name {
@@ -32,6 +32,7 @@ pub fn run(name: &str, seed: u64, ov: impl FnMut(&mut Cfg)) -> ! {
         "c04a" => c04::run_a(seed, ov),
         "c04b" => c04::run_b(seed, ov),
         "c04c" => c04::run_c(seed, ov),
+        "c04d" => c04::run_d(seed, ov),
         "c05" => c05::run(seed, ov),
         "c06mpsc" => c06::run(seed, Some(c06::Flavor::Mpsc), ov),
         "c06spsc" => c06::run(seed, Some(c06::Flavor::Spsc), ov),
